@@ -63,7 +63,7 @@ FAULT_KINDS = [
     "miss", "ghost", "dup_detection", "label_flip", "label_unknown", "label_alias", "conf_tie", "conf_near_tie", "pose_noise",
     "yaw_flip", "size_noise", "wrong_frame_id",
     # tracker
-    "id_new", "id_swap", "id_dup", "id_steal",
+    "id_new", "id_swap", "id_dup", "id_steal", "id_none",
     # clock
     "skew_offset", "drift", "jitter", "jump_back", "jump_forward", "stamp_edge",
     # transport
@@ -107,7 +107,7 @@ PROFILES = {
     "generic": {},
     "clean": {"clean_p": 1.0},
     "c13": {
-        "force": ["dup", "reeval", "scene_query", "crit_change"],
+        "force": ["dup", "reeval", "scene_query", "crit_change", "dup_detection", "id_dup", "id_none"],
         "enable_p": 0.3,
         "narrow_crit_p": 0.6,
         "max_samples": 10,
@@ -766,6 +766,10 @@ def make_plan(seed, run, profile_name, clean=None, force=None):
                 o["attrs"] = list(a.get("attrs", [])) or [rng.choice(ATTRS)]
             if rng.random() < 0.3:
                 o["vel"] = [_r(rng.uniform(-10, 10), 2), _r(rng.uniform(-3, 3), 2), 0.0]
+            if tracking and fire("id_none"):
+                o["uuid"] = None          # a tracker output without an id
+                o["faults"].append("id_none")
+                note("id_none")
             if idn == ai:
                 o["faults"].append("id_new")
             if swp and ai in swp:
